@@ -72,6 +72,10 @@ def problem(name, dtype):
         def f(t, y):
             return -50.0 * np.sign(y) * np.sqrt(np.abs(y)) + 1.0
         return f
+    if name == "tdepsys":     # non-autonomous, state dependent Jacobian: y0' = -(1 + t^2) y0 y1, y1' = sin(t) - y1^3
+        def f(t, y):
+            return np.stack([-(1.0 + t * t) * y[0] * y[1], np.sin(t) - y[1] ** 3])
+        return f
     if name == "nanwall":      # smooth for |t| < 1/2, undefined beyond: no step can be taken across the wall
         def f(t, y):
             return -y if abs(t) < 0.5 else np.nan * y
@@ -164,6 +168,8 @@ def run(sc, detail_rhs=False, keep_system=False):
         lg.emit("Api", op="new", method=str(sc["method"]))
         system.method = method_class(sc["method"])
         lg.emit("Api", op="method")
+        cur_method = [sc["method"]]
+        lg.cur_method = cur_method
         for k, op in enumerate(sc["ops"]):
             name = op["op"]
             if name == "integrate":
@@ -218,6 +224,8 @@ def run(sc, detail_rhs=False, keep_system=False):
                     system.method = method_class(v)
                 elif w == "kick":
                     system.set_kick_vars(np.array(v, dtype=bool))
+                if w == "method":
+                    cur_method[0] = v
                 lg.emit("ApiRet", op="set", k=k, err=None, full=_full_state(system, y0_copy, y0))
             else:
                 raise KeyError(name)
@@ -259,6 +267,7 @@ def _err_info(e):
 
 def _full_state(system, y0_copy, y0):
     t = np.array(system.t, copy=True)
+    lgm = getattr(system._vf_log, "cur_method", None)
     y = np.array(system.y, copy=True)
     d = system.__dict__
     sol = d.get("_OdeSystem__sol")
@@ -275,7 +284,7 @@ def _full_state(system, y0_copy, y0):
         "y0Untouched": bool(np.array_equal(y0, y0_copy)),
         "dtype": str(y.dtype), "tdtype": str(t.dtype),
         "finite": bool(np.all(np.isfinite(t)) and np.all(np.isfinite(y))),
-        "t0": system.t0, "tf": system.tf,
+        "t0": system.t0, "tf": system.tf, "family": family_of(lgm[0]) if lgm else None,
     }
 
 
@@ -486,6 +495,7 @@ def normalise(sc, lg):
         elif n == "ApiRet":
             fl = e["full"]
             o.update(op=e["op"], k=int(e.get("k", -1)), err=("none" if e.get("err") is None else e["err"]["type"]),
+                     family=(fl.get("family") or family_of(sc["method"])),
                      chain=([] if e.get("err") is None else e["err"]["chain"]),
                      grid=[it.r(x) for x in fl["t"]], ygrid=[it.a(x) for x in fl["y"]],
                      paired=(fl["lenT"] == fl["lenY"] and len(fl["t"]) == len(fl["y"])), lenT=int(fl["lenT"]),
@@ -500,6 +510,7 @@ def normalise(sc, lg):
                      truthTerm=[bool(x["term"]) for x in e.get("truth", [])],
                      truthGap=[num.gap_units(fl["t"][-1], x["c"], [x["c"]], dt) for x in e.get("truth", [])],
                      truthDirOk=[bool(x["dirOk"]) for x in e.get("truth", [])],
+                     evGap=[num.gap_units(fl["t"][-1], x, [x], dt) for (x, _) in fl["events"]],
                      lastEvUlps=(num.gap_units(fl["t"][-1], fl["events"][-1][0], [fl["events"][-1][0]], dt) if len(fl["events"]) else -1))
         elif n == "ResetRet":
             ev_hist.clear()
@@ -527,10 +538,15 @@ def run_plain(sc):
 
     def f(t, y):
         calls[0] += 1
+        opcalls[0] += 1
         if calls[0] > budget:
             raise traced.BudgetExceeded("more than %d right-hand-side evaluations" % budget)
+        if fault_at[0] is not None and opcalls[0] == fault_at[0]:
+            raise Injected("injected")
         return f1(t, y)
     calls = [0]
+    opcalls = [0]
+    fault_at = [None]
     y0 = np.array(sc["y0"], dtype=dt)
     kw = {}
     if sc.get("rtol") is not None:
@@ -546,7 +562,15 @@ def run_plain(sc):
             if name == "integrate":
                 evs = [make_event(e, dt) for e in op["events"]] if op.get("events") else None
                 cbs = [c for c in (make_callback(c, dt) for c in op.get("cbs", [])) if c is not None] or None
-                system.integrate(t=op.get("t"), events=evs, callback=cbs)
+                opcalls[0] = 0
+                fault_at[0] = op.get("fault")
+                try:
+                    system.integrate(t=op.get("t"), events=evs, callback=cbs)
+                except de.exception_types.FailedIntegration:
+                    if fault_at[0] is None:
+                        raise
+                finally:
+                    fault_at[0] = None
             elif name == "reset":
                 system.reset()
             elif name == "set":
@@ -569,6 +593,13 @@ def run_plain(sc):
         except Exception as e:  # noqa
             err = type(e).__name__
             break
-    return {"t": np.array(system.t, copy=True), "y": np.array(system.y, copy=True), "ok": err is None, "err": err,
+    mids = []
+    if err is None and system.sol is not None and len(system.t) > 1:
+        try:
+            for i in range(len(system.t) - 1):
+                mids.append(np.array(system.sol(system.t[i] + (system.t[i + 1] - system.t[i]) * 0.5), copy=True))
+        except Exception as e:   # noqa
+            mids = [np.array([np.nan])]
+    return {"t": np.array(system.t, copy=True), "y": np.array(system.y, copy=True), "ok": err is None, "err": err, "mids": mids,
             "nfev": system.nfev, "events": [(e.t, np.array(e.y, copy=True)) for e in system.events], "dt": system.dt,
             "status": system.integration_status, "system": system}
